@@ -45,6 +45,17 @@ Theorem C18_between : forall x0 x1 xt (yt : list cell) a b x,
 Proof. exact interp_seg_between. Qed.
 Print Assumptions C18_between.
 
+(* interp_like is the successive application of interp_axis - hence of the 1-D rule above - over exactly the
+   dimensions the two objects share, with the other object's labels, and the identity when none is shared *)
+Theorem C18_interp_like : forall others left right a,
+  interp_like others left right a = fold_left (interp_step left right) (shared_axes others (map aname (axes a))) (Ok a).
+Proof. exact interp_like_successive. Qed.
+Print Assumptions C18_interp_like.
+Theorem C18_interp_like_disjoint : forall others left right a,
+  shared_axes others (map aname (axes a)) = [] -> interp_like others left right a = Ok a.
+Proof. exact interp_like_disjoint. Qed.
+Print Assumptions C18_interp_like_disjoint.
+
 Definition ex_a : darr :=
   Arr [Ax "t" KI [L_ 4; L_ 0; L_ 2] [] []; Ax "u" KO [LStr "p"; LStr "q"] [] []] [3; 2] KF
       [N_ 40; N_ 41; N_ 0; N_ 1; N_ 20; N_ 21] [("units", MStr "K")].
@@ -52,4 +63,9 @@ Example C18_nonvacuous :
   exists r, interp_axis KF [L_ 1; L_ 2; L_ 9] (ByName "t") CNaN (N_ 7) ex_a = Ok r /\
     dat (vals r) = [CNum (qz 20 2); CNum (qz 22 2); N_ 20; N_ 21; N_ 7; N_ 7] /\
     alab (nth 0 (axes r) dax0) = [L_ 1; L_ 2; L_ 9] /\ attrs r = attrs ex_a.
+Proof. eexists. repeat split; vm_compute; reflexivity. Qed.
+Example C18_like_nonvacuous :
+  exists r, interp_like [("w", KI, [L_ 1]); ("t", KF, [L_ 1; L_ 2; L_ 9])] CNaN (N_ 7) ex_a = Ok r /\
+    dat (vals r) = [CNum (qz 20 2); CNum (qz 22 2); N_ 20; N_ 21; N_ 7; N_ 7] /\
+    shared_axes [("w", KI, [L_ 1]); ("t", KF, [L_ 1; L_ 2; L_ 9])] (map aname (axes ex_a)) = [("t", KF, [L_ 1; L_ 2; L_ 9])].
 Proof. eexists. repeat split; vm_compute; reflexivity. Qed.
